@@ -472,7 +472,7 @@ def ts6(ctx, pid):
         n_ret += 1
         checked = False
         nonempty = False
-        for t, pol, node in st.log:
+        for t, pol, node in st.log + st.alog:
             r = rel_norm(t, pol)
             if r and r[0] == "==" and any(x[0] == "call" and x[1] == BIN + ".get" for x in (r[1], r[2])):
                 other = r[2] if r[1][0] == "call" and r[1][1] == BIN + ".get" else r[1]
@@ -498,7 +498,7 @@ def ts6(ctx, pid):
     for p, st in pq.states(ctx, f):
         if p.exit[0] != "raise" or p.exit[1] != "AssertionError" or pq.local_raise(p) is None:
             continue
-        last = st.log[-1] if st.log else None
+        last = st.alog[-1] if st.alog else (st.log[-1] if st.log else None)
         if last is None:
             continue
         tt, pp = truth_norm(last[0], last[1])
